@@ -91,7 +91,7 @@ def gen_recording(rng, wild=True, n=None):
     if wild and rng.random() < 0.4:
         mk = lambda: count_samples(rng, n)
     deg = float(rng.choice([0., 90., 359.999, 360., -30., 400., float(rng.uniform(-720, 1080))]))
-    meta = {"site": "STN", "nested": {"list": [1, 2.5, None], "tuple": (1, 2)}, "value": float(rng.random())} if rng.random() < 0.6 else None
+    meta = {"site": str(rng.choice(["STN", "S\u00e9isme-\u00d1and\u00fa", "\u5730\u9707 site 7"])), "nested": {"list": [1, 2.5, None], "tuple": (1, 2)}, "value": float(rng.random())} if rng.random() < 0.6 else None
     return gen.make_recording(mk(), mk(), mk(), dt, degrees_from_north=deg, meta=meta), n, dt
 
 
